@@ -95,10 +95,11 @@ theorem filter_elements (md : List Entry) (els : List String) (e' : Entry) :
   · rintro ⟨e, he, rfl, hne⟩
     exact ⟨⟨e, he, rfl⟩, by simpa using hne⟩
 
-/-- **substring filter** (case-insensitive through the lower-cased criterion and the lower-case key) -/
+/-- **substring filter**, case-insensitive: the lower-cased criterion occurs in the (lower-case) key or in the lower-cased
+display name -/
 theorem filter_substr (md : List Entry) (s : String) (hs : s.isEmpty = false) (e : Entry) :
     e ∈ filterEntries md (some s) none none none
-      ↔ e ∈ md ∧ (isSubstr (lower s) e.key = true ∨ isSubstr (lower s) e.display = true) := by
+      ↔ e ∈ md ∧ (isSubstr (lower s) e.key = true ∨ isSubstr (lower s) (lower e.display) = true) := by
   unfold filterEntries
   simp [hs, List.mem_filter]
 
